@@ -5,14 +5,14 @@
    a whole-frame call that runs out of input has written a prefix d1 of the rows, and repeating it on ANY longer input v' >= v gives exactly the
    result of a single call on v' with the rows d1 ++ d2 - by induction over a growth schedule this is `resuming completes identically`.  At the
    byte level the stream machine consumes nothing on an empty buffer and accumulates partial 4-byte fields (C04_field_piece_is_only_accumulated)
-   and partial chunk bodies (C04_body_cut_partial) without events.  AT THE BYTE LEVEL (stream machine, Proofs/StreamWhole.v, premise: the prefix-determinacy contract of the external inflater): a stream that decodes without
+   and partial chunk bodies (C04_body_cut_partial) without events.  AT THE BYTE LEVEL (stream machine, Proofs/StreamWhole.v, premise: the prefix-determinacy contract of the external inflater, which is PROVED for the reference inflater of the executable model - Proofs/InflatePrefix.v - so the last two theorems have no premise at all): a stream that decodes without
    an error reports no error on ANY of its prefixes - the run ends for lack of input, ready to go on (C05_prefix_never_fails) - and however the input
    then grows (any list of increments) the outcome is that of decoding the complete input in one go (C05_resuming_completes_identically).
    NOT PROVED: the link between the two levels (Reader rows over the machine's image bytes) and next_frame_info; decided by the harness on every run
    (every cut point, growth schedules +1 / random / all-at-once, six retried calls). *)
 From Coq Require Import List Arith Bool Lia ZArith.
 Import ListNotations.
-From PngV Require Import Base.Bytes Model.Stream Model.StreamRun Gen.GenStream Model.Reader Proofs.ReaderProofs Proofs.StreamSplit Proofs.StreamWhole.
+From PngV Require Import Base.Bytes Model.Stream Model.StreamRun Gen.GenStream Model.Reader Proofs.ReaderProofs Proofs.StreamSplit Proofs.StreamWhole Base.Inflate Base.Utf8 Model.StreamExec Proofs.InflatePrefix.
 
 (* row calls *)
 Theorem C05_row_call_out_of_input_changes_nothing :
@@ -67,6 +67,23 @@ Theorem C05_resuming_completes_identically :
        feed_obs (feed zinf zall utf8_valid (init_state o limit) [concat increments]).
 Proof. exact resuming_completes_identically. Qed.
 
+(* bytes, executable model (no premise about the inflater): no error on any prefix of a stream that decodes *)
+Theorem C05_executable_model_prefix_never_fails :
+  forall (o : options) (limit : Z) (p q : list Z),
+       bytes_ok p ->
+       bytes_ok q ->
+       ~ is_failure (snd (feed zinf_ref inflate_checked utf8_valid (init_state o limit) [p ++ q])) ->
+       ~ is_failure (snd (feed zinf_ref inflate_checked utf8_valid (init_state o limit) [p])).
+Proof. exact executable_model_prefix_never_fails. Qed.
+
+(* bytes, executable model (no premise about the inflater): however the input grows, the outcome is that of decoding the complete input in one go *)
+Theorem C05_executable_model_resuming_completes_identically :
+  forall (o : options) (limit : Z) (increments : list (list Z)),
+       Forall bytes_ok increments ->
+       feed_obs (feed zinf_ref inflate_checked utf8_valid (init_state o limit) increments) =
+       feed_obs (feed zinf_ref inflate_checked utf8_valid (init_state o limit) [concat increments]).
+Proof. exact executable_model_resuming_completes_identically. Qed.
+
 Local Open Scope nat_scope.
 (* non-vacuity: frame of 4 rows, only 2 visible: next_frame writes 2 rows and reports UnexpectedEof; repeated with everything visible it writes the other 2 *)
 Example C05_nonvacuous :
@@ -94,3 +111,5 @@ Print Assumptions C05_frame_call_is_resumable.
 Print Assumptions C05_rows_visible_earlier_stay_visible.
 Print Assumptions C05_prefix_never_fails.
 Print Assumptions C05_resuming_completes_identically.
+Print Assumptions C05_executable_model_prefix_never_fails.
+Print Assumptions C05_executable_model_resuming_completes_identically.
